@@ -1,13 +1,26 @@
 /-
   Bnum.Lemmas.Radix — lemmas about Model/Radix.lean (C10 parsing, C11 printing).
 
-  Plan
+  C10
   * `digs fs bs` are the digit values of a byte view; `hasInvalid` ⇔ some digit `≥ radix`.
-  * general arm (chunked Horner): `accLoop_spec` (one chunk, no `$Digit` overflow because a chunk has
+  * general arm (chunked Horner): `accLoop_spec` (one chunk; no `$Digit` overflow because a chunk has
     at most `power` digits and `radix^power < B w`), `mulDigitLoop_spec`, `checkedAdd_nat`,
     `chunkLoop_spec` (invariant `U out = valueOf (consumed prefix)`), `generalArm_spec`.
   * power-of-two arm: `packLoop_spec`, `packAll_spec` (bit packing = little-endian value in base
-    `radix = 2^k`, `k ∣ w`), `skipZerosLoop`, `pow2Arm_spec`.
+    `radix = 2^k`, `k ∣ w`), `skipZerosLoop_spec`, `overflow_cond`, `pow2Arm_spec`.
+  * `ArmSpec` / `fromBuf_spec`: value or `PosOverflow` for digit strings, some error (and
+    `InvalidDigit` when `radix^len ≤ 2^BITS`) otherwise.
+  * `UI.fromStrRadix_matches`, `II.fromStrRadix_matches`: the model answers what
+    `Spec.Radix.expectParse` prescribes (`Matches`); `finishParse_*` is the signed range test.
+  * `UI/II.parseBytes_spec`, `UI.fromRadixBe_spec`, `UI.fromRadixLe_spec` (radix 256 through the
+    closed forms of `from_be_slice`/`from_le_slice` in Lemmas/Endian.lean).
+  C11
+  * Spec side: `digitsLE_pos`, `emit_append_digitsLE` (chunk lemma), `valueOfLE_canonLE`, …
+  * `toRadixDigitsLe_spec` (division by `radix_base_half`), `digitsLE_chunks` +
+    `toBitwiseDigitsLe_spec` + `take_ldi_succ_eq` (exact bit slicing, `u8`/256 copy),
+    `inexactInner_digit` / `inexactOuter_spec` / `toInexactBitwiseDigitsLe_spec` (radices 8, 32, 64,
+    128), assembled in `UI.toRadixLe_spec`, `UI.toStrRadix_spec`, `II.toStrRadix_spec`.
+  * round trips: `Grammar_canonStr`, `denote_canon`, `ofInt_U`, `ofInt_S`.
 -/
 import Bnum.Model.Radix
 import Bnum.Spec.Radix
@@ -15,6 +28,7 @@ import Bnum.Lemmas.AddSub2
 import Bnum.Lemmas.Mul
 import Bnum.Lemmas.Div
 import Bnum.Lemmas.Bits
+import Bnum.Lemmas.Endian
 set_option autoImplicit false
 namespace Bnum
 namespace Radix
@@ -2057,4 +2071,230 @@ theorem canonLE_getLast {r v : Nat} (hr : 2 ≤ r) (hv : v ≠ 0) : (canonLE r v
   unfold canonLE; rw [if_neg hv]; exact digitsAux_getLast hr v v (Nat.le_refl _) hv
 
 end Radix
+namespace Radix
+open Spec.Radix
+
+/-! ### `from_radix_be` / `from_radix_le` (radix < 256) and `parse_bytes` -/
+
+theorem ofNat_zero (w : Nat) : ∀ n, ofNat w n 0 = zero n
+  | 0 => rfl
+  | n + 1 => by
+    simp only [ofNat, Nat.zero_mod, Nat.zero_div, ofNat_zero w n, zero, List.replicate_succ]
+
+theorem digs_false (bs : List Nat) : digs false bs = bs := by
+  have : byteToDigit false = id := by funext b; simp [byteToDigit]
+  simp [digs, this]
+
+theorem hasInvalid_false_all {r : Nat} (hr : r < 256) (bs : List Nat) :
+    hasInvalid false r bs = !bs.all (· < r) := by
+  induction bs with
+  | nil => rfl
+  | cons b bs ih =>
+    unfold hasInvalid
+    simp only [byteToDigit, Bool.false_eq_true, if_false, Nat.mod_eq_of_lt hr, List.all_cons, ih]
+    by_cases h : b ≥ r
+    · simp [h]
+    · simp [h]
+
+theorem fromRadix_core {w n r : Nat} (hn : 1 ≤ n) (hw8 : 8 ≤ w) (hw4 : 4 ∣ w) (hr : 2 ≤ r)
+    (hr256 : r < 256) (be : Bool) (buf : List Nat) (hne : buf ≠ []) :
+    (fromBufRadixInternal w n false be buf r false).map PRes.toOption
+      = .ok ((expectDigits r (M w n) (if be then buf else buf.reverse)).map (ofNat w n)) := by
+  have hlen : (if false = true then 1 else 0) < buf.length := by
+    simp; exact List.length_pos_iff.mpr hne
+  obtain ⟨h1, h2⟩ := fromBuf_spec (w := w) (n := n) (fs := false) (be := be) (buf := buf) (radix := r)
+    (ls := false) hn hw8 hw4 hr hr256 (Or.inr rfl) hlen
+  simp only [Bool.false_eq_true, if_false, List.drop_zero] at h1 h2
+  generalize (if be = true then buf else buf.reverse) = view at *
+  unfold expectDigits
+  cases hv : hasInvalid false r view
+  · have hall : view.all (· < r) = true := by
+      have := hasInvalid_false_all hr256 view; rw [hv] at this; simpa using this.symm
+    rw [h1 hv, digs_false]
+    by_cases hfit : valueOf r view < M w n
+    · simp [hfit, hall, Outcome.map, PRes.toOption]
+    · simp [hfit, Outcome.map, PRes.toOption]
+  · have hall : view.all (· < r) = false := by
+      have := hasInvalid_false_all hr256 view; rw [hv] at this; simpa using this.symm
+    obtain ⟨k, k1, _⟩ := h2 hv
+    rw [k1]
+    simp [hall, Outcome.map, PRes.toOption]
+
+theorem ascii_utf8Valid : ∀ (bs : List Nat), (∀ b ∈ bs, b < 128) → Prim.utf8Valid bs = true
+  | [], _ => rfl
+  | b :: bs, h => by
+    unfold Prim.utf8Valid
+    rw [if_pos (h b (by simp))]
+    exact ascii_utf8Valid bs (fun c hc => h c (by simp [hc]))
+
+theorem digitsOf_ascii {r : Nat} : ∀ (bs ds : List Nat), digitsOf r bs = some ds → ∀ b ∈ bs, b < 128
+  | [], _, _ => by simp
+  | c :: cs, ds, h => by
+    unfold digitsOf at h
+    cases hc : charDigit c with
+    | none => rw [hc] at h; simp at h
+    | some d =>
+      rw [hc] at h
+      simp only at h
+      split_ifs at h
+      cases hd : digitsOf r cs with
+      | none => rw [hd] at h; simp at h
+      | some ds' =>
+        have ih := digitsOf_ascii cs ds' hd
+        have hc128 : c < 128 := by
+          unfold charDigit at hc; split_ifs at hc <;> omega
+        intro b hb
+        rcases List.mem_cons.mp hb with hb | hb
+        · rw [hb]; exact hc128
+        · exact ih b hb
+
+theorem Grammar_ascii {r : Nat} {sg : Bool} {s : List Nat} {g : Bool × List Nat}
+    (h : Grammar r sg s = some g) : ∀ b ∈ s, b < 128 := by
+  have hs := Grammar_ne_nil h
+  unfold Grammar at h
+  simp only at h
+  split_ifs at h
+  cases hd : digitsOf r (splitSign sg s).2 with
+  | none => rw [hd] at h; simp at h
+  | some ds =>
+    have hb := digitsOf_ascii _ _ hd
+    rw [splitSign_eq sg hs] at hb
+    simp only at hb
+    match s, hs with
+    | c :: rest, _ =>
+      intro b hbm
+      by_cases hc : ((sg && (c :: rest).head? == some 45) || (c :: rest).head? == some 43) = true
+      · rw [if_pos hc] at hb
+        rcases List.mem_cons.mp hbm with e | e
+        · simp at hc; omega
+        · exact hb b (by simpa using e)
+      · rw [if_neg hc] at hb
+        exact hb b (by simpa using hbm)
+
+/-- `Result → Option` of what the Spec expects -/
+def expectOpt (w n : Nat) : Expect → Option (List Nat)
+  | .ok z => some (ofInt w n z)
+  | _ => none
+
+theorem Matches_toOption {w n : Nat} {e : Expect} {res : Outcome PRes} (h : Matches w n e res) :
+    res.map PRes.toOption = .ok (expectOpt w n e) := by
+  cases e <;> simp only [Matches] at h
+  case anyErr => obtain ⟨k, rfl⟩ := h; rfl
+  all_goals (subst h; rfl)
+
+theorem expect_ok_utf8 {r : Nat} {sg : Bool} {m : Nat} {s : List Nat} {z : Int}
+    (h : expectParse r sg m s = .ok z) : Prim.utf8Valid s = true := by
+  obtain ⟨g, hg, _⟩ := expect_ok_inv h
+  exact ascii_utf8Valid s (Grammar_ascii hg)
+
+end Radix
+
+theorem UI.parseBytes_spec {w n : Nat} (hn : 1 ≤ n) (hw8 : 8 ≤ w) (hw4 : 4 ∣ w) {r : Nat}
+    (hr : 2 ≤ r) (hr36 : r ≤ 36) (buf : List Nat) :
+    UI.parseBytes w n buf r
+      = .ok (Radix.expectOpt w n (Spec.Radix.expectParse r false (M w n) buf)) := by
+  unfold UI.parseBytes
+  by_cases hu : Prim.utf8Valid buf = true
+  · simp only [hu, Bool.not_true, Bool.false_eq_true, if_false]
+    exact Radix.Matches_toOption (UI.fromStrRadix_matches hn hw8 hw4 hr hr36 buf)
+  · have hu' : Prim.utf8Valid buf = false := by simpa using hu
+    simp only [hu', Bool.not_false, if_true]
+    cases he : Spec.Radix.expectParse r false (M w n) buf with
+    | ok z => rw [Radix.expect_ok_utf8 he] at hu'; cases hu'
+    | _ => rfl
+
+theorem II.parseBytes_spec {s n : Nat} (hn : 1 ≤ n) (hs3 : 3 ≤ s) (hs : s < 32) {r : Nat}
+    (hr : 2 ≤ r) (hr36 : r ≤ 36) (buf : List Nat) :
+    II.parseBytes (2 ^ s) n buf r
+      = .ok (Radix.expectOpt (2 ^ s) n (Spec.Radix.expectParse r true (M (2 ^ s) n) buf)) := by
+  unfold II.parseBytes
+  by_cases hu : Prim.utf8Valid buf = true
+  · simp only [hu, Bool.not_true, Bool.false_eq_true, if_false]
+    exact Radix.Matches_toOption (II.fromStrRadix_matches hn hs3 hs hr hr36 buf)
+  · have hu' : Prim.utf8Valid buf = false := by simpa using hu
+    simp only [hu', Bool.not_false, if_true]
+    cases he : Spec.Radix.expectParse r true (M (2 ^ s) n) buf with
+    | ok z => rw [Radix.expect_ok_utf8 he] at hu'; cases hu'
+    | _ => rfl
+
+namespace Radix
+open Spec.Radix
+
+/-! ### radix 256: `from_le_slice` / `from_be_slice` (closed forms from Lemmas/Endian.lean) -/
+
+theorem leValue_eq_valueOfLE (bs : List Nat) : Spec.Endian.leValue bs = valueOfLE 256 bs := by
+  induction bs with
+  | nil => rfl
+  | cons b bs ih => simp [Spec.Endian.leValue, valueOfLE, ih]
+
+theorem beValue_eq_valueOf (bs : List Nat) : Spec.Endian.beValue bs = valueOf 256 bs := rfl
+
+end Radix
+
+theorem UI.fromRadixBe_spec {w n r sh : Nat} (hn : 1 ≤ n) (hwb : w = 8 * 2 ^ sh) (hr : 2 ≤ r)
+    (hr256 : r ≤ 256) (buf : List Nat) (hbuf : ∀ b ∈ buf, b < 256) :
+    UI.fromRadixBe w n buf r
+      = .ok ((Spec.Radix.expectDigits r (M w n) buf).map (ofNat w n)) := by
+  open Radix Spec.Radix in
+  have hpos : 0 < 2 ^ sh := Nat.pow_pos (by omega)
+  have hw : 8 ≤ w := by omega
+  have hw4 : 4 ∣ w := ⟨2 * 2 ^ sh, by omega⟩
+  have hbw : w / 8 = 2 ^ sh := by rw [hwb]; exact Nat.mul_div_cancel_left _ (by omega)
+  unfold UI.fromRadixBe
+  have hin : inRange r 256 = true := by simp [inRange, hr, hr256]
+  rw [hin]
+  simp only [Bool.not_true, Bool.false_eq_true, if_false]
+  by_cases hne : buf = []
+  · subst hne
+    simp [expectDigits, valueOf, M_pos, ofNat_zero]
+  · have : buf.isEmpty = false := by cases buf <;> simp_all
+    rw [this]
+    simp only [Bool.false_eq_true, if_false]
+    by_cases h256 : r = 256
+    · subst h256
+      simp only [beq_self_eq_true, if_true]
+      rw [hbw, UI.fromBeSlice_closed rfl n (show Endian.Bytes buf from hbuf), beValue_eq_valueOf,
+        ← hwb]
+      have hall : buf.all (· < 256) = true := by simpa using hbuf
+      unfold expectDigits
+      by_cases hfit : valueOf 256 buf < M w n <;> simp [hfit, hall]
+    · have : (r == 256) = false := by simpa using h256
+      rw [this]
+      simp only [Bool.false_eq_true, if_false]
+      have := fromRadix_core (n := n) hn hw hw4 hr (by omega) true buf hne
+      simpa using this
+
+theorem UI.fromRadixLe_spec {w n r sh : Nat} (hn : 1 ≤ n) (hwb : w = 8 * 2 ^ sh) (hr : 2 ≤ r)
+    (hr256 : r ≤ 256) (buf : List Nat) (hbuf : ∀ b ∈ buf, b < 256) :
+    UI.fromRadixLe w n buf r
+      = .ok ((Spec.Radix.expectDigits r (M w n) buf.reverse).map (ofNat w n)) := by
+  open Radix Spec.Radix in
+  have hpos : 0 < 2 ^ sh := Nat.pow_pos (by omega)
+  have hw : 8 ≤ w := by omega
+  have hw4 : 4 ∣ w := ⟨2 * 2 ^ sh, by omega⟩
+  have hbw : w / 8 = 2 ^ sh := by rw [hwb]; exact Nat.mul_div_cancel_left _ (by omega)
+  unfold UI.fromRadixLe
+  have hin : inRange r 256 = true := by simp [inRange, hr, hr256]
+  rw [hin]
+  simp only [Bool.not_true, Bool.false_eq_true, if_false]
+  by_cases hne : buf = []
+  · subst hne
+    simp [expectDigits, valueOf, M_pos, ofNat_zero]
+  · have : buf.isEmpty = false := by cases buf <;> simp_all
+    rw [this]
+    simp only [Bool.false_eq_true, if_false]
+    by_cases h256 : r = 256
+    · subst h256
+      simp only [beq_self_eq_true, if_true]
+      rw [hbw, UI.fromLeSlice_closed rfl n (show Endian.Bytes buf from hbuf), leValue_eq_valueOfLE,
+        ← valueOf_reverse, ← hwb]
+      have hall : buf.reverse.all (· < 256) = true := by simpa using hbuf
+      unfold expectDigits
+      by_cases hfit : valueOf 256 buf.reverse < M w n <;> simp [hfit, hall]
+    · have : (r == 256) = false := by simpa using h256
+      rw [this]
+      simp only [Bool.false_eq_true, if_false]
+      have := fromRadix_core (n := n) hn hw hw4 hr (by omega) false buf hne
+      simpa using this
+
 end Bnum
